@@ -318,6 +318,97 @@ def gen_pair_scenario(rng, sid, how):
     return sc
 
 
+# arrays with IDENTICAL raw bytes, shape and strides but different dtype (run under the numpy interpreter)
+NP_GROUPS = [
+    ("0100000002000000", [2], ["<i4", ">i4", "<u4", "<f4", ">u4"]),
+    ("0100000002000000", [1], [[["a", "<i4"], ["b", "<i4"]], [["a", "<i4"], ["b", "<f4"]], [["x", "<i4"], ["b", "<i4"]],
+                               [["a", "<i4", [2]]], [["a", ">i4"], ["b", "<i4"]], [["a", "<i2"], ["p", "<i2"], ["b", "<i4"]],
+                               {"names": ["a", "b"], "formats": ["<i2", "<i4"], "offsets": [0, 4], "itemsize": 8},
+                               {"names": ["a", "b"], "formats": ["<i2", "<i4"], "offsets": [2, 4], "itemsize": 8}]),
+    ("0100000000000000", [1], ["<i8", "<M8[s]", "<M8[ms]", "<m8[s]", "<m8[ms]", "<u8", "<f8", ">i8"]),
+    ("01000000", [1], ["S4", "<U1", "<i4", "V4", ">i4"]),
+    ("0100010000010101", [8], ["?", "u1", "i1", "S1"]),
+    ("0100000002000000", [2, 1], ["<i4", ">i4", "<f4"]),
+]
+
+
+def gen_numpy_scenario(rng, sid):
+    """pairs / triples of arrays that differ ONLY in their dtype, each cached, then the twins called, then all
+    again (hits), optionally in a fresh process: the digests must differ whenever the values differ"""
+    hexbytes, shape, dts = rng.choice(NP_GROUPS)
+    chosen = rng.sample(dts, rng.randint(2, min(4, len(dts))))
+    arrs = [{"np": {"bytes": hexbytes, "dtype": d, "shape": shape}} for d in chosen]
+    form = rng.choice(["pos", "kw", "nested"])
+    sc = {"id": sid, "type": "sig", "py": "np", "params": [["a", "pk", None], ["b", "pk", I(0)]], "ignore": [],
+          "compress": rng.choice([False, 3]),
+          "versions": {"0": {"tag": "v0", "path": "verifmod.py", "pad": 0, "kind": rng.choice(["def", "method"])}}}
+
+    def cs(a):
+        if form == "kw":
+            return {"pos": [], "kw": [["a", a]]}
+        if form == "nested":
+            return {"pos": [{"t": [a, I(1)]}], "kw": []}
+        return {"pos": [a], "kw": []}
+    ev = [["define", 0], ["wrap", 0]]
+    order = list(arrs)
+    for rnd in range(2):
+        for a in order:
+            ev += [["check", 0, cs(a), True], ["call", 0, cs(a), True]]
+        rng.shuffle(order)
+        if rnd == 0 and rng.random() < 0.3:
+            ev += [["newprocess"], ["define", 0], ["wrap", 0]]
+    sc["events"] = ev
+    return sc
+
+
+def gen_codeless_scenario(rng, sid):
+    """callables WITHOUT __code__, 2-3 of them cached in one Memory and one process, interleaved histories:
+    partials of functions with one qualname in different modules, partials of one method bound to distinct
+    instances (default repr), nested partials, partials with equal positional but different keyword arguments,
+    instances of a class with __call__ and different state.  Their 'source text' is their repr."""
+    flavour = rng.choice(["modules", "methods", "nested", "keywords", "callables", "mixed"])
+    nver = rng.choice([2, 2, 3])
+    versions = {}
+    for k in range(1, nver + 1):
+        v = {"tag": "v0", "path": "codeless.py", "pad": 0, "kind": "partial", "text": k, "how": "func", "state": 0,
+             "frozen": {"pos": [I(101)], "kw": []}}
+        fl = flavour if flavour != "mixed" else rng.choice(["modules", "methods", "nested", "keywords", "callables"])
+        if fl == "modules":
+            v.update(path="codeless_%d.py" % k, tag="vmod%d" % k)          # same qualname g, other module, other body
+        elif fl == "methods":
+            v.update(how="method", state=k)                                 # K(k).m: reprs differ by an address only
+        elif fl == "nested":
+            v.update(how="nested", frozen={"pos": [I(101), I(200 + k)], "kw": []})
+        elif fl == "keywords":
+            v.update(frozen={"pos": [I(101)], "kw": [["d", I(20 + k)]]})
+        else:
+            v.update(how="callable", state=k)
+        versions[str(k)] = v
+    sc = {"id": sid, "type": "partial", "params": [["a", "pk", None], ["b", "pk", None], ["c", "pk", I(12)],
+                                                  ["d", "ko", I(13)]],
+          "ignore": [], "compress": False, "versions": versions, "mode": "own"}
+    events = []
+    for k in range(1, nver + 1):
+        events += [["define", k], ["wrap", k]]
+    nref = 0
+    for _ in range(rng.randint(3, 9)):
+        k = rng.randint(1, nver)
+        x = I(rng.choice([0, 0, 1]))
+        nested = versions[str(k)]["how"] == "nested"
+        cs = {"pos": [] if nested else [x], "kw": [["c", x]] if nested else []}
+        if rng.random() < 0.3 and not nested:
+            cs = {"pos": [x], "kw": [["c", I(5)]]}
+        if rng.random() < 0.4:
+            events.append(["check", k, cs, True])
+        if rng.random() < 0.25:
+            events += [["shelve", k, cs, True], ["get", nref]]
+            nref += 1
+        else:
+            events.append(["call", k, cs, True])
+    sc["events"] = events
+    return sc
+
+
 def gen_partial_scenario(rng, sid):
     """2-3 functools.partial objects of ONE function with different frozen arguments, one process, interleaved
     histories.  A partial has no __name__: func id 'functools/unknown', source text repr(partial), keyed by the
@@ -382,6 +473,19 @@ def fixed_scenarios(prop):
                     "params": [["a", "pk", None], ["b", "pk", None], ["c", "pk", I(12)], ["d", "ko", I(13)]],
                     "ignore": [], "compress": False, "versions": V, "mode": "own", "events": ev})
     if prop in ("C02", "C06"):
+        # callables without __code__ whose reprs differ by an address only: p1(x); p2(x); p1(x)
+        for fl, upd in (("modules", lambda k: {"path": "codeless_%d.py" % k, "tag": "vmod%d" % k}),
+                        ("methods", lambda k: {"how": "method", "state": k}),
+                        ("callables", lambda k: {"how": "callable", "state": k})):
+            V = {}
+            for k in (1, 2):
+                V[str(k)] = dict({"tag": "v0", "path": "codeless.py", "pad": 0, "kind": "partial", "text": k,
+                                  "how": "func", "state": 0, "frozen": {"pos": [I(101)], "kw": []}}, **upd(k))
+            ev = [["define", 1], ["wrap", 1], ["define", 2], ["wrap", 2], _call(1, [0]), _call(2, [0]), _call(1, [0]),
+                  _call(2, [0], kind="shelve"), ["get", 0], _call(1, [0], kind="shelve"), ["get", 1], _call(2, [1])]
+            out.append({"id": "fixed-codeless-%s" % fl, "type": "partial",
+                        "params": [["a", "pk", None], ["b", "pk", None], ["c", "pk", I(12)], ["d", "ko", I(13)]],
+                        "ignore": [], "compress": False, "versions": V, "mode": "own", "events": ev})
         # (a) a dict / set argument with keys of mixed kinds, repeated (rebuilt in other orders) in fresh processes
         #     that run under different PYTHONHASHSEED values
         mixed = {"d": [[{"i": 1}, I(1)], [{"s": "k"}, I(2)], [{"y": "k"}, I(3)], [{"t": [I(1), {"s": "a"}]}, I(4)],
@@ -427,6 +531,12 @@ def fixed_scenarios(prop):
                     "compress": False, "versions": V, "mode": "same",
                     "events": [["define", 1], ["wrap", 1], _c(1), _c(1), _c(1, 1), ["hotreload", 1, 2],
                                _c(2), _c(2), _c(2, 1), ["recode", 2], _c(2)]})
+        # fixed finding F36 (was F18): c(0); equal recompilation assigned; c(0); file rewritten + edited code
+        # assigned (it may land on the recycled address of the first code object); c(0) must run the new code
+        out.append({"id": "fixed-recode-then-hot-reload-F36", "type": "c12", "params": [["x", "pk", None]], "ignore": [],
+                    "compress": False, "versions": {k: dict(v) for k, v in V.items()}, "mode": "same",
+                    "events": [["define", 1], ["wrap", 1], _c(1), ["recode", 1], _c(1), ["hotreload", 1, 2], _c(2), _c(2),
+                               _c(2, 1)]})
         # every physical line of a multi-line body edited in turn, across fresh processes / in process
         import random as _r
         out.append(gen_edit_scenario(_r.Random(1), "fixed-edit-every-line-a", slots=[0, 1, 2, 3]))
@@ -477,7 +587,7 @@ def gen_c12_scenario(rng, sid):
     sc = {"id": sid, "type": "c12", "params": [["x", "pk", None]], "ignore": [], "compress": False,
           "versions": versions, "mode": mode}
     events = []
-    live, wrapped, reloaded, recoded = set(), set(), set(), set()
+    live, wrapped, lineage = set(), set(), {}
     careful = rng.random() < 0.5     # careful scenarios never use an object the monitor would refuse
     called_text = None
     stale = set()
@@ -506,16 +616,19 @@ def gen_c12_scenario(rng, sid):
             events.append(["clearmem"])
         elif r < 0.40 and kind != "sourceless":
             # hot reload: the file of a live object is edited in place and the new code object is installed into
-            # the existing function object (each object at most once, never back to a text it had)
-            cand = [k for k in sorted(live) if k not in reloaded and k not in recoded and k in wrapped]
+            # the existing function object.  Any number of times, but never back to a text this function object
+            # had before: the model gives the reloaded object a NEW index, whereas the real _FUNCTION_HASHES entry of
+            # the function object would match an earlier text again (an F10-shaped history through one object).
             texts = sorted({v["text"] for v in versions.values()})
-            if cand and len(texts) > 1:
+            cand = [k for k in sorted(live) if k in wrapped and
+                    any(t not in lineage.get(k, set()) and t != versions[str(k)]["text"] for t in texts)]
+            if cand:
                 k = rng.choice(cand)
-                t2 = rng.choice([t for t in texts if t != versions[str(k)]["text"]])
+                t2 = rng.choice([t for t in texts if t != versions[str(k)]["text"] and t not in lineage.get(k, set())])
                 k2 = max(int(x) for x in versions) + 1
                 versions[str(k2)] = dict(versions[str(k)], tag="v%d" % t2, text=t2)
                 events.append(["hotreload", k, k2])
-                reloaded.update([k, k2])
+                lineage[k2] = lineage.get(k, set()) | {versions[str(k)]["text"]}
                 live.discard(k)
                 wrapped.discard(k)
                 for j in list(live):
@@ -523,22 +636,13 @@ def gen_c12_scenario(rng, sid):
                         stale.add(j)
                 live.add(k2)
                 wrapped.add(k2)
-        elif r < 0.42 and mode == "own" and kind != "sourceless":
-            # (never BEFORE a hot reload of the same object: func_code_info remembers id(code) of the first code
-            # object for ever, and a later edited code object may recycle that address -- see design.d, F18)
-            k = rng.choice(sorted(live))
-            recoded.add(k)
-            events.append(["recode", k])
+        elif r < 0.44 and kind != "sourceless":
+            # the code object is replaced by an equal recompilation (also BEFORE a hot reload of the same object: the
+            # history of fixed finding F36).  Model: `Wrap k` -- the wrapper forgets its cached source text and
+            # re-reads the file at its next slow-path check; the _FUNCTION_HASHES entry still matches.
+            events.append(["recode", rng.choice(sorted(live & wrapped))] if live & wrapped else ["clearmem"])
         else:
-            # a hot-reloaded object re-reads its source file at EVERY slow-path check (the id remembered by
-            # func_code_info never matches again) whereas the model caches the text: the two differ only once the
-            # file has been overwritten by other text, so such (stale) objects are not called
-            cand = [k for k in sorted(live) if not (k in reloaded and k in stale)]
-            if not cand:
-                events.append(["newprocess"])
-                live, wrapped, stale, called_text = set(), set(), set(), None
-                reloaded, recoded = set(), set()
-                continue
+            cand = sorted(live)
             if careful:
                 cand = [k for k in cand if k not in stale and
                         (called_text is None or versions[str(k)]["text"] == called_text or
@@ -591,23 +695,23 @@ def gen_edit_scenario(rng, sid, slots=None):
     order = [1] + [2 + sl for sl in slots]
     extra = [rng.choice(order) for _ in range(rng.randint(1, 3))]
     cur = None
-    reloaded = False
+    had = set()       # texts the current function object has had (never reloaded back to one of them)
     for step, text in enumerate(order + extra):
-        how = "first" if cur is None else rng.choice(["process", "process", "reimport", "hotreload"])
-        if how == "hotreload" and (reloaded or versions[str(cur)]["text"] == text):
+        how = "first" if cur is None else rng.choice(["process", "process", "reimport", "hotreload", "hotreload"])
+        if how == "hotreload" and (text in had or versions[str(cur)]["text"] == text):
             how = "process"
         if how == "process":
             events.append(["newprocess"])
-            reloaded = False
         if how == "hotreload":
+            if rng.random() < 0.5:
+                events.append(["recode", cur])      # equal recompilation first, then the edit
+            had.add(versions[str(cur)]["text"])
             k = new_object(text)
             events.append(["hotreload", cur, k])
-            reloaded = True
         else:
             k = new_object(text)
             events += [["define", k], ["wrap", k]]
-            if how == "reimport":
-                reloaded = False
+            had = set()
         cur = k
         for a in rng.sample([0, 1, 0], rng.randint(1, 3)):
             if rng.random() < 0.3:
@@ -651,7 +755,8 @@ def run_scenario(sc, timeout=300):
                 continue
             job = {"cache": cache, "moddir": moddir, "refs": os.path.join(tmp, "refs.pkl"),
                    "scenario": {k: sc[k] for k in ("versions", "params", "ignore", "compress")}, "events": seg}
-            p = subprocess.run([common.PY, os.path.join(common.ROOT, "harness", "impl", "c02_impl.py")],
+            p = subprocess.run([common.PYNP if sc.get("py") == "np" else common.PY,
+                                os.path.join(common.ROOT, "harness", "impl", "c02_impl.py")],
                                input=json.dumps(job), stdout=subprocess.PIPE, stderr=subprocess.PIPE, text=True,
                                env=common.impl_env(hashseed=seeds[nseg % len(seeds)]), timeout=timeout)
             if p.returncode != 0 or not p.stdout.strip():
@@ -691,6 +796,9 @@ def monitor(sc, classify=False):
     live, wraps, stale, called, cur = [], [], [], [], None
     for i, ev in enumerate(sc["events"]):
         t = ev[0]
+        if t == "recode":
+            ev = ["wrap", ev[1]]
+            t = "wrap"
         if t == "hotreload":
             # model: the reloaded object is a NEW object index (text of ev[2], file of ev[1]) with a fresh
             # wrapper state: the stored hash in _FUNCTION_HASHES no longer matches and func_code_info is re-read
@@ -920,7 +1028,7 @@ def model_terms(sc, res):
         if t == "hotreload":
             hist.append("Define %d; Wrap %d" % (ev[2], ev[2]))
         elif t == "recode":
-            hist.append("Get 999999")     # no model event: an equal code object changes nothing (model: OSkip)
+            hist.append("Wrap %d" % ev[1])    # an equal code object: the wrapper drops its cached source text
         elif t == "define":
             hist.append("Define %d" % ev[1])
         elif t == "wrap":
@@ -974,7 +1082,7 @@ def impl_view(sc, res, tables):
             out += [(1, 0, 0), (1, 0, 0)]
         elif r.get("o") == "skip":
             out.append((0, 0, 0))
-        elif t in ("define", "wrap", "clearref", "clearfunc", "clearmem", "evict", "newprocess"):
+        elif t in ("define", "wrap", "recode", "clearref", "clearfunc", "clearmem", "evict", "newprocess"):
             out.append((1, 0, 0))
         elif r["o"] == "raise":
             out.append((2, 1 if r.get("e") == "KeyError" else (2 if r.get("e") == "TypeError" and
@@ -1101,6 +1209,38 @@ TRUSTED = [
 ]
 
 
+_NP = []
+
+
+def numpy_available():
+    if not _NP:
+        try:
+            p = subprocess.run([common.PYNP, "-c", "import numpy, joblib"], env=common.impl_env(),
+                               stdout=subprocess.DEVNULL, stderr=subprocess.DEVNULL, timeout=120)
+            _NP.append(p.returncode == 0)
+        except Exception:  # noqa
+            _NP.append(False)
+    return _NP[0]
+
+
+def fixed_numpy_scenarios():
+    """'<i4' array vs its '>i4' view; [('a','<i4'),('b','<i4')] vs [('a','<i4'),('b','<f4')]: identical bytes"""
+    out = []
+    for n, (hexbytes, shape, dts) in enumerate([("0100000002000000", [2], ["<i4", ">i4"]),
+                                                ("0100000002000000", [1], [[["a", "<i4"], ["b", "<i4"]],
+                                                                          [["a", "<i4"], ["b", "<f4"]]]),
+                                                ("0100000000000000", [1], ["<i8", "<M8[s]", "<M8[ms]"])]):
+        arrs = [{"np": {"bytes": hexbytes, "dtype": d, "shape": shape}} for d in dts]
+        ev = [["define", 0], ["wrap", 0]]
+        for a in arrs + arrs[::-1]:
+            cs = {"pos": [a], "kw": []}
+            ev += [["check", 0, cs, True], ["call", 0, cs, True]]
+        out.append({"id": "fixed-numpy-dtype-twins-%d" % n, "type": "sig", "py": "np",
+                    "params": [["a", "pk", None], ["b", "pk", I(0)]], "ignore": [], "compress": False,
+                    "versions": {"0": {"tag": "v0", "path": "verifmod.py", "pad": 0, "kind": "def"}}, "events": ev})
+    return out
+
+
 def rng_for(ctx, prop):
     import random
     return random.Random("%s-%d" % (prop, ctx.seed))
@@ -1110,14 +1250,20 @@ def gen_for(ctx, prop, n=None):
     rng = rng_for(ctx, prop)
     quick = ctx.tier == "quick"
     if prop == "C12":
-        n = n or (260 if quick else 2500)
+        n = n or (210 if quick else 2500)
         return ([W_F10, W_SAME] + fixed_scenarios(prop) + [gen_c12_scenario(rng, i) for i in range(n)]
-                + [gen_edit_scenario(rng, "edit-%d" % i) for i in range(60 if quick else 600)])
+                + [gen_edit_scenario(rng, "edit-%d" % i) for i in range(45 if quick else 600)])
     sigs3 = enum_signatures(3)
     sigs = enum_signatures(4 if quick else 5)
     n = n or (230 if quick else 3000)
     scs = [w for w, p, _, _ in WITNESSES if w["type"] == "sig"] + fixed_scenarios(prop)
-    scs += [gen_partial_scenario(rng, "p-%d" % i) for i in range(40 if quick else 400)]
+    scs += [gen_partial_scenario(rng, "p-%d" % i) for i in range(25 if quick else 400)]
+    scs += [gen_codeless_scenario(rng, "cl-%d" % i) for i in range(35 if quick else 400)]
+    if numpy_available():
+        scs += fixed_numpy_scenarios()
+        scs += [gen_numpy_scenario(rng, "np-%d" % i) for i in range(30 if quick else 400)]
+    else:
+        ctx.note("interpreter with numpy (%s) not usable: numpy argument stream skipped" % common.PYNP)
     scs += [gen_pair_scenario(rng, "pair-%d" % i, "factory" if i % 2 else "wraps") for i in range(40 if quick else 400)]
     # every signature of <= 3 parameters at least once, then a random sample of the larger ones
     scs += [gen_sig_scenario(rng, s, "s3-%d" % i) for i, s in enumerate(sigs3)]
